@@ -17,6 +17,12 @@ CHECKS = {
    text="Token.tla states the token discipline (retry reuses a failed attempt's token, fresh otherwise, in-flight tokens distinct, no sharing across parameter sets) and is checked exhaustively for 2-3 concurrent callers. The real client code (option builders, key generator, every create/assign call site incl. rollback) is bound by trace validation: each recorded execution must be a behaviour of the spec with the token choice as a silent step.",
    design_ref="DESIGN.md 4.5, 5 (C16)",
    note="Trusts: the fake http.RoundTripper as the cloud; uuid renumbering; LRU capacity forced to 2; backoff Steps=1 (one request per call)."),
+ "C17": dict(
+   technique="TLA+ spec VSwitch.tla model-checked by TLC; TLC-simulated + random scenarios replayed on the real SwitchPool (fake clock, fake VPC) and validated line by line; concurrent rounds linearized by TLC (VSwitch_conc.tla)",
+   category="model_checking",
+   text="VSwitch.tla gives GetOne/Block/expiry as actions whose guards are the property clauses (member of candidates, zone unless fallback, free>0 on the cached snapshot, ordered=first eligible, most=max free, blocked until expiry, caller slice unchanged). Sequential executions of the real selector are fully logged and must be behaviours of the spec; concurrent executions must be linearizable to it.",
+   design_ref="DESIGN.md 4.5, 5 (C17)",
+   note="Trusts: fake VPC and fake clock; concurrent rounds use a static cloud and no expiry; data-race freedom itself is not decided."),
 }
 
 NA_REASON = "not built yet in this round of work; see DESIGN.md section 10 (build order) - the property is planned to be decided by the TLA+ pipeline"
